@@ -33,6 +33,7 @@ MIN_COUNTERS = {
     "reads_observed": {"quick": 50000, "thorough": 500000},
     "toplevel_stream_checked": {"quick": 30000, "thorough": 300000},
     "trace_compared": {"quick": 8000, "thorough": 80000},
+    "map_with_reads_cases": {"quick": 80, "thorough": 80},
 }
 UNIT_TIMEOUT = 150
 
@@ -75,6 +76,7 @@ def units(tier, seed):
             for a in range(len(ALPHABET)):
                 for b in range(len(ALPHABET)):
                     u.append({"kind": "exh", "len": L, "prefix": [a, b]})
+    u.append({"kind": "maplast"})
     n_rand = 64 if tier == "quick" else 640
     per = 60 if tier == "quick" else 100
     for i in range(n_rand):
@@ -174,6 +176,7 @@ def check_case(prog, inputs, res, label):
         c["generator_token_mismatch"] = c.get("generator_token_mismatch", 0) + 1
         return
     m = Model(inputs=inputs, flags="")
+    m.eager_ok = label == "maplast"
     try:
         m.run_program(prog)
     except Skip as s:
@@ -191,7 +194,7 @@ def check_case(prog, inputs, res, label):
     c["reads_observed"] = c.get("reads_observed", 0) + len(reads)
     if reads or m.reads:
         res["keys"].append(harness.short_hash([text, inputs]))
-    unit = {"kind": "one", "prog": prog, "inputs": inputs}
+    unit = {"kind": "one", "prog": prog, "inputs": inputs, "label": label}
 
     def violation(mech, what):
         if len(res["violations"]) < 20:
@@ -258,7 +261,7 @@ def run_unit(unit):
     res = {"evals": 0, "keys": [], "violations": [], "inconclusive": [], "skips": {}, "counters": {}, "samples": []}
     k = unit["kind"]
     if k == "one":
-        check_case(unit["prog"], unit["inputs"], res, "replay")
+        check_case(unit["prog"], unit["inputs"], res, unit.get("label", "replay"))
     elif k == "exh":
         L = unit["len"]
         pre = unit["prefix"]
@@ -270,6 +273,20 @@ def run_unit(unit):
             for inputs in input_lists():
                 check_case(prog, inputs, res, "exh")
         res["counters"]["exhaustive_histories"] = res["counters"].get("exhaustive_histories", 0) + len(ALPHABET) ** (L - len(pre))
+    elif k == "maplast":
+        # explicit reads inside a map body, over lists with repeated items; the map is the last thing in the
+        # program (nothing reads after it is built), so evaluating it when it is printed and evaluating it at once
+        # deliver the same reads in the same order: one per item, equal items included
+        lists = [[7, 7, 7], [7, 8, 7], [3, 3], [5], [2, 2, 2, 2, 9, 2]]
+        bodies = [[["el", "?"], ["el", "+"]], [["el", "?"]], [["el", "_"], ["el", "?"], ["el", "?"], ["el", "+"]]]
+        pres = [[], [["el", "?"]], [["el", "_"]], [["el", "?"], ["el", "+"]]]
+        for lst in lists:
+            for body in bodies:
+                for pre in pres:
+                    prog = list(pre) + [["list", [[["num", v]] for v in lst]], ["map", body]]
+                    for inputs in input_lists():
+                        check_case(prog, inputs, res, "maplast")
+                        res["counters"]["map_with_reads_cases"] = res["counters"].get("map_with_reads_cases", 0) + 1
     else:
         r = random.Random(f"C11/{unit['seed']}/{unit['idx']}")
         ins = input_lists()
@@ -284,4 +301,4 @@ def classify(w):
 
 
 def finalize(agg, tier):
-    return {"exhaustive_part": "all histories over the 10-symbol alphabet up to length %d x 7 input lists" % (4 if tier == "quick" else 5)}
+    return {"exhaustive_part": "all histories over the 12-symbol alphabet up to length %d x 7 input lists" % (4 if tier == "quick" else 5)}
